@@ -103,6 +103,9 @@ def deep(x):
         return ('dict', tuple(sorted((repr(k), deep(v)) for k, v in x.items())))
     if isinstance(x, io.BytesIO):
         return ('bytesio', x.getvalue())
+    if hasattr(x, 'read') and hasattr(x, 'closed'):
+        # an open file object handed in by the caller: still the caller's, still open (its position is not part of the state)
+        return ('file', bool(x.closed), getattr(x, 'name', None), getattr(x, 'mode', None))
     if callable(x) and not isinstance(x, np.ndarray):
         return ('callable', getattr(x, '__name__', 'fn'))
     return fp(x)
@@ -192,6 +195,8 @@ def recipes():
     add('io.FCSFile(path)', ['int'], lambda d, k: b_file(d, k) + (after_file,))
     add('io.FCSData(path)', ['int'], lambda d, k: (dict(path=write_root('int'), filebytes=open(write_root('int'), 'rb').read()),
                                                    lambda a: FlowCal.io.FCSData(a['path']), after_file))
+    add('io.FCSData(open file)', ['int'], lambda d, k: (dict(fh=open(write_root('int'), 'rb')), lambda a: FlowCal.io.FCSData(a['fh'])))
+    add('io.FCSFile(open file)', ['int'], lambda d, k: (dict(fh=open(write_root('int'), 'rb')), lambda a: FlowCal.io.FCSFile(a['fh']).text))
     add('io.read_fcs_header_segment', ['int'], lambda d, k: (dict(buf=io.BytesIO(open(write_root('int'), 'rb').read())),
                                                              lambda a: tuple(FlowCal.io.read_fcs_header_segment(a['buf']))))
 
@@ -213,6 +218,8 @@ def recipes():
     # --- transform
     add('transform.to_rfi(all)', S, lambda d, k: (dict(data=d), lambda a: FlowCal.transform.to_rfi(a['data'])), kind='produce')
     add('transform.to_rfi(name)', S, lambda d, k: (dict(data=d), lambda a: FlowCal.transform.to_rfi(a['data'], 'FL1-H')), kind='produce')
+    add('transform.to_rfi(nested lists)', ALL, lambda d, k: (dict(data=d, channels=ch2(k), at=[[4.0, 0.0], [0.0, 0.0]], gain=[None, 2.0], res=[1024, None]),
+                                                            lambda a: FlowCal.transform.to_rfi(a['data'], a['channels'], a['at'], a['gain'], a['res'])), kind='produce')
     add('transform.to_rfi(lists)', ALL, lambda d, k: (dict(data=d, channels=ch2(k), at=[(4, 1), (0, 0)], gain=[None, 2.0], res=[1024, None]),
                                                      lambda a: FlowCal.transform.to_rfi(a['data'], a['channels'], a['at'], a['gain'], a['res'])), kind='produce')
     curves = [lambda x: np.sign(x) * np.exp(2.0) * np.abs(x) ** 1.1, lambda x: np.sign(x) * np.exp(3.0) * np.abs(x) ** 0.95]
